@@ -7,7 +7,7 @@
    series hashes are arbitrary data of the statements. *)
 From Coq Require Import ZArith List Bool Arith Lia.
 Import ListNotations.
-From Verif Require Import Lib.Corr Lib.Hashring_Ketama Gen.C20 Model.C20 Proofs.C20.
+From Verif Require Import Lib.Corr Lib.Hashring_Ketama Gen.C20 Model.C20 Proofs.C20 Proofs.C20_Loop.
 Close Scope Z_scope.
 
 (* For every ring (any number of nodes and sections per node), every position
@@ -48,9 +48,26 @@ Theorem C20_walk_filter : forall p e hs v,
 Proof. exact walk_lists_related. Qed.
 Print Assumptions C20_walk_filter.
 
-(* Not proved (partial): that the loop-level model (calculateSectionReplicas'
-   index walk + GetN) computes exactly [spec_answers] for zone-free rings; this
-   equation is evaluated on every generated case instead (corr_ok). *)
+(* The loop-level model — calculateSectionReplicas' index walk with `% len` and
+   the lap counter, newKetamaHashring, ketamaHashring.GetN — computes exactly the
+   specification on every zone-free ring in which each node owns a section and
+   rf <= #nodes. *)
+Theorem C20_loop_is_spec : forall hs rf v,
+  rf <= length hs -> Forall (fun h => h <> []) hs -> hs <> [] ->
+  loop_answers hs rf v = Some (spec_answers (spec_ring hs) rf v).
+Proof. exact loop_is_spec. Qed.
+Print Assumptions C20_loop_is_spec.
+
+(* Hence the property for the loop-level model itself: both rings answer, and
+   the answers before/after satisfy the predicate evaluated by the check. *)
+Theorem C20_only_onto_new_loop : forall hs p e rf v,
+  p <= length hs -> rf <= length hs -> hs <> [] ->
+  Forall (fun h => h <> []) (ins p e hs) ->
+  NoDup (map s_hash (sections_of 0 (nozone (ins p e hs)))) ->
+  exists A A', loop_answers hs rf v = Some A /\ loop_answers (ins p e hs) rf v = Some A' /\
+               only_onto_new p A A' = true.
+Proof. exact add_node_loop. Qed.
+Print Assumptions C20_only_onto_new_loop.
 
 (* Non-vacuity: three nodes with two sections each, a node added in the middle;
    the series at hash 10 gains the new node (position 1) in place of old node 2. *)
